@@ -24,6 +24,7 @@ func init() {
 			{ID: "C01.R6", Floor: 2, Doc: "contextWriter contract: the caller's context is never consulted after the frame was handed over, so exec's 'not started' release (n==0 && ctx error) cannot free the id of a frame that reaches the wire", Run: c07r4},
 			{ID: "C01.R7", Floor: 6, Doc: "Conn.calls accessed only under c.mu (constructor literal excepted)", Run: c01r7},
 			{ID: "C01.R8", Floor: 8, Doc: "writeHeader/readHeader/setLength/newFramer agree on header layout per version class", Run: c01r8},
+			{ID: "C01.R9", Floor: 1, Doc: "the framer handed to a caller owns its body: recv installs no connection-lifetime storage into it", Run: c01r9},
 		},
 	})
 }
@@ -843,4 +844,68 @@ func c01r8(p *Program, r *Report) {
 		return true
 	})
 	r.Check(len(hs) == 2 && hs[0]+hs[1] == 17, nf.Decl, "newFramer headSize 8/9", "framer.headSize equals the bytes writeHeader appends", fmt.Sprintf("newFramer head sizes %v differ from writeHeader's 8/9", hs))
+}
+
+// c01r9: a response is decoded by the caller after recv has gone on to read the next frame. The framer that
+// carries the body must therefore own its bytes: in recv no slice-typed field of the framer is assigned from
+// (or saved into) storage that lives as long as the connection.
+func c01r9(p *Program, r *Report) {
+	fi := r.NeedFunc("(*Conn).recv")
+	if fi == nil {
+		return
+	}
+	info := fi.Pkg.TypesInfo
+	recvName := ""
+	if fi.Decl.Recv != nil && len(fi.Decl.Recv.List) == 1 && len(fi.Decl.Recv.List[0].Names) == 1 {
+		recvName = fi.Decl.Recv.List[0].Names[0].Name
+	}
+	n := 0
+	bad := false
+	ast.Inspect(fi.Decl.Body, func(x ast.Node) bool {
+		as, ok := x.(*ast.AssignStmt)
+		if !ok || len(as.Lhs) != len(as.Rhs) {
+			return true
+		}
+		for i, l := range as.Lhs {
+			ls, lok := ast.Unparen(l).(*ast.SelectorExpr)
+			if !lok {
+				continue
+			}
+			lt := info.TypeOf(ls)
+			if lt == nil {
+				continue
+			}
+			if _, isSlice := lt.Underlying().(*types.Slice); !isSlice {
+				continue
+			}
+			lroot, rroot := rootIdent(ls), rootIdent(as.Rhs[i])
+			lIsFramer := typeNameOf(info.TypeOf(ls.X)) == "framer"
+			rIsFramer := false
+			if rs, ok := ast.Unparen(as.Rhs[i]).(*ast.SelectorExpr); ok {
+				rIsFramer = typeNameOf(info.TypeOf(rs.X)) == "framer"
+			}
+			switch {
+			case lIsFramer && rroot != nil && rroot.Name == recvName:
+				n++
+				bad = true
+				r.Bad(as, "(*Conn).recv: "+exprStr(l)+" = "+exprStr(as.Rhs[i]), "the framer that is handed to the waiting request reads its body into storage owned by the connection: the next frame read by recv overwrites the bytes while the first caller is still decoding them, so a request sees another request's response")
+			case rIsFramer && lroot != nil && lroot.Name == recvName:
+				n++
+				bad = true
+				r.Bad(as, "(*Conn).recv: "+exprStr(l)+" = "+exprStr(as.Rhs[i]), "the body buffer of a framer that is handed to a caller is kept by the connection for reuse: a later response is read into bytes an earlier caller is still decoding")
+			}
+		}
+		return true
+	})
+	// the framer is created per response
+	fresh := false
+	for _, c := range callsIn(fi.Decl.Body) {
+		if isCallTo(info, c, "newFramer") {
+			fresh = true
+		}
+	}
+	if !bad {
+		r.Check(fresh, fi.Decl, "(*Conn).recv builds a fresh framer per response and installs no connection-owned storage into it", "newFramer per frame; no framer slice field assigned from/to the Conn", "recv does not create a framer per response")
+	}
+	_ = n
 }
